@@ -315,4 +315,152 @@ theorem fits_of_bounded (p : Plan) (N : Nat) (hadj : ∀ n, ∀ e ∈ p.adj n, e
     · have : (seg.descend e.1 e.2).depth = seg.depth + 1 := by simp [Seg.descend, Seg.depth]
       omega
 
+/-! ### AcyclicTraverseNodes: the candidate set is the set of nodes reachable over at least one edge -/
+
+def succs (adj : Nat → List (Nat × Nat)) (u : Nat) : List Nat := (adj u).map (·.2)
+
+/-- reachability in the plan's ordered adjacency -/
+inductive Reachable (adj : Nat → List (Nat × Nat)) (root : Nat) : Nat → Prop where
+  | refl : Reachable adj root root
+  | step {u v : Nat} : Reachable adj root u → v ∈ succs adj u → Reachable adj root v
+
+/-- run the tracker-free DFS for `fuel` iterations, accumulating the offered candidates -/
+def accRun (p : Plan) : Nat → Core → List Seg → Core × List Seg
+  | 0, c, acc => (c, acc)
+  | fuel + 1, c, acc => match iterCore p c with
+    | none => (c, acc)
+    | some (c', off) => accRun p fuel c' (acc ++ off)
+
+theorem accRun_events (p : Plan) (fuel : Nat) (c : Core) (acc : List Seg) :
+    (accRun p fuel c acc).2 = acc ++ events p fuel c := by
+  induction fuel generalizing c acc with
+  | zero => simp [accRun, events]
+  | succ n ih =>
+    unfold accRun events
+    cases h : iterCore p c with
+    | none => simp
+    | some r => obtain ⟨c', off⟩ := r; simp only []; rw [ih]; simp [List.append_assoc]
+
+@[simp] theorem node_descend (s : Seg) (e n : Nat) : (s.descend e n).node = n := by simp [Seg.descend, Seg.node]
+
+structure NInv (p : Plan) (root : Nat) (c : Core) (acc : List Seg) : Prop where
+  reachS : ∀ s ∈ c.stack, Reachable p.adj root s.node
+  reachV : ∀ u ∈ c.visited, Reachable p.adj root u
+  closed : ∀ u ∈ c.visited, ∀ v ∈ succs p.adj u, v ∈ c.visited ∨ ∃ s ∈ c.stack, s.node = v
+  offers : ∀ v, v ∈ acc.map Seg.node ↔ optAccept p.nodeFilter v = true ∧ ∃ u ∈ c.visited, v ∈ succs p.adj u
+  root : root ∈ c.visited ∨ ∃ s ∈ c.stack, s.node = root
+
+theorem ninv_step (p : Plan) (hp : p.helper = .nodes) (hd : p.descentFilter = none) (root : Nat)
+    {c c' : Core} {acc off : List Seg} (hi : NInv p root c acc) (h : iterCore p c = some (c', off)) :
+    NInv p root c' (acc ++ off) := by
+  unfold iterCore at h
+  cases hst : c.stack with
+  | nil => rw [hst] at h; cases h
+  | cons next below =>
+    rw [hst] at h
+    simp only [Option.some.injEq, Prod.mk.injEq] at h
+    obtain ⟨hc', hoff⟩ := h
+    have hnext : next ∈ c.stack := by rw [hst]; exact List.mem_cons_self ..
+    have hbelow : ∀ s ∈ below, s ∈ c.stack := fun s hs => by rw [hst]; exact List.mem_cons_of_mem _ hs
+    have hpush : ∀ x : Seg, pushOK p x = true := by intro x; simp [pushOK, hd, optAccept, hp]
+    have hvis : ∀ b, offeredByVisit p next b = false := by
+      intro b; simp [offeredByVisit, hp]
+    have hod : ∀ x : Seg, offeredByDescent p x = optAccept p.nodeFilter x.node := by
+      intro x; simp [offeredByDescent, hp, hd, optAccept]
+    simp only [hvis, Bool.false_eq_true, if_false, List.append_nil] at hoff
+    by_cases hv : c.visited.contains next.node = true
+    · -- already expanded: nothing fetched, nothing offered
+      have hvm : next.node ∈ c.visited := by simpa using hv
+      have hex : expandNext p c.visited next = (c.visited, []) := by simp [expandNext, Plan.acyclic, hp, hvm]
+      rw [hex] at hc' hoff
+      simp only [List.filter_nil, List.reverse_nil, List.nil_append] at hc' hoff
+      subst hc'; subst hoff
+      refine ⟨fun s hs => hi.reachS s (hbelow s hs), hi.reachV, ?_, ?_, ?_⟩
+      · intro u hu v hvs
+        rcases hi.closed u hu v hvs with h1 | ⟨s, hs, hsv⟩
+        · exact Or.inl h1
+        · rw [hst] at hs
+          rcases List.mem_cons.mp hs with h2 | h2
+          · subst h2; rw [← hsv]; exact Or.inl hvm
+          · exact Or.inr ⟨s, h2, hsv⟩
+      · simpa using hi.offers
+      · rcases hi.root with h1 | ⟨s, hs, hsv⟩
+        · exact Or.inl h1
+        · rw [hst] at hs
+          rcases List.mem_cons.mp hs with h2 | h2
+          · subst h2; rw [← hsv]; exact Or.inl hvm
+          · exact Or.inr ⟨s, h2, hsv⟩
+    · -- first visit: mark, fetch, push every branch, offer the ones the node filter accepts
+      have hvn : next.node ∉ c.visited := by simpa using hv
+      have hex : expandNext p c.visited next =
+          (next.node :: c.visited, (p.adj next.node).map (fun e => next.descend e.1 e.2)) := by
+        simp [expandNext, Plan.acyclic, hp, hvn]
+      rw [hex] at hc' hoff
+      have hfil : ((p.adj next.node).map (fun e => next.descend e.1 e.2)).filter (pushOK p) =
+          (p.adj next.node).map (fun e => next.descend e.1 e.2) := List.filter_eq_self.mpr (fun x _ => hpush x)
+      rw [hfil] at hc'
+      subst hc'; subst hoff
+      have hkid : ∀ s, s ∈ (p.adj next.node).map (fun e => next.descend e.1 e.2) → s.node ∈ succs p.adj next.node := by
+        intro s hs
+        obtain ⟨e, he, rfl⟩ := List.mem_map.mp hs
+        simp only [node_descend, succs]; exact List.mem_map.mpr ⟨e, he, rfl⟩
+      have hkid' : ∀ v ∈ succs p.adj next.node, ∃ s ∈ (p.adj next.node).map (fun e => next.descend e.1 e.2), s.node = v := by
+        intro v hv
+        obtain ⟨e, he, rfl⟩ := List.mem_map.mp hv
+        exact ⟨next.descend e.1 e.2, List.mem_map.mpr ⟨e, he, rfl⟩, by simp⟩
+      refine ⟨?_, ?_, ?_, ?_, ?_⟩
+      · intro s hs
+        rcases List.mem_append.mp hs with h1 | h1
+        · exact Reachable.step (hi.reachS next hnext) (hkid s (List.mem_reverse.mp h1))
+        · exact hi.reachS s (hbelow s h1)
+      · intro u hu
+        rcases List.mem_cons.mp hu with h1 | h1
+        · subst h1; exact hi.reachS next hnext
+        · exact hi.reachV u h1
+      · intro u hu v hvs
+        rcases List.mem_cons.mp hu with h1 | h1
+        · subst h1
+          obtain ⟨s, hs, hsv⟩ := hkid' v hvs
+          exact Or.inr ⟨s, List.mem_append.mpr (Or.inl (List.mem_reverse.mpr hs)), hsv⟩
+        · rcases hi.closed u h1 v hvs with h2 | ⟨s, hs, hsv⟩
+          · exact Or.inl (List.mem_cons_of_mem _ h2)
+          · rw [hst] at hs
+            rcases List.mem_cons.mp hs with h3 | h3
+            · subst h3; rw [← hsv]; exact Or.inl (List.mem_cons_self ..)
+            · exact Or.inr ⟨s, List.mem_append.mpr (Or.inr h3), hsv⟩
+      · intro v
+        simp only [List.map_append, List.mem_append]
+        constructor
+        · rintro (h1 | h1)
+          · obtain ⟨ha, u, hu, hvs⟩ := (hi.offers v).mp h1
+            exact ⟨ha, u, List.mem_cons_of_mem _ hu, hvs⟩
+          · obtain ⟨s, hs, rfl⟩ := List.mem_map.mp h1
+            have hs' := List.mem_filter.mp hs
+            exact ⟨by rw [← hod]; exact hs'.2, next.node, List.mem_cons_self .., hkid s hs'.1⟩
+        · rintro ⟨ha, u, hu, hvs⟩
+          rcases List.mem_cons.mp hu with h1 | h1
+          · subst h1
+            obtain ⟨s, hs, hsv⟩ := hkid' v hvs
+            right
+            exact List.mem_map.mpr ⟨s, List.mem_filter.mpr ⟨hs, by rw [hod, hsv]; exact ha⟩, hsv⟩
+          · left; exact (hi.offers v).mpr ⟨ha, u, h1, hvs⟩
+      · rcases hi.root with h1 | ⟨s, hs, hsv⟩
+        · exact Or.inl (List.mem_cons_of_mem _ h1)
+        · rw [hst] at hs
+          rcases List.mem_cons.mp hs with h3 | h3
+          · subst h3; rw [← hsv]; exact Or.inl (List.mem_cons_self ..)
+          · exact Or.inr ⟨s, List.mem_append.mpr (Or.inr h3), hsv⟩
+
+theorem ninv_run (p : Plan) (hp : p.helper = .nodes) (hd : p.descentFilter = none) (root : Nat) :
+    ∀ fuel c acc, NInv p root c acc → NInv p root (accRun p fuel c acc).1 (accRun p fuel c acc).2 := by
+  intro fuel
+  induction fuel with
+  | zero => intro c acc hi; exact hi
+  | succ n ih =>
+    intro c acc hi
+    unfold accRun
+    cases h : iterCore p c with
+    | none => exact hi
+    | some r => obtain ⟨c', off⟩ := r; exact ih c' (acc ++ off) (ninv_step p hp hd root hi h)
+
 end Dawgs.C17.Seq
